@@ -94,7 +94,7 @@ fn gen_plan(seed: u64, tier: &str) -> Value {
         });
     }
     let fault = match r.below(8) {
-        0 => json!({"systemctl_fails": *r.pick(&["stop", "start", "enable", "daemon-reload", "disable", "unmask"])}),
+        0 | 2 | 3 => json!({"systemctl_fails": *r.pick(&["stop", "start", "enable", "enable", "daemon-reload", "disable", "unmask"])}),
         1 => json!({"package_missing": *r.pick(&["proxy-agent.json", "ebpf_cgroup.o"])}),
         _ => Value::Null,
     };
@@ -213,7 +213,9 @@ fn main() {
         write(&format!("{}/ProxyAgent/Backup/Package/ebpf_cgroup.o", sdir), &blob(&mut r, "bebpf"), false);
         write(&format!("{}/ProxyAgent/Backup/azure-proxy-agent.service", sdir), &blob(&mut r, "bunit"), false);
     }
-    let faulty = !plan["fault"].is_null();
+    // a package file that is missing changes what a command can do (the model does not cover that): such histories are only
+    // checked for containment. A failing systemctl verb changes nothing about which files a command must leave behind.
+    let faulty = plan["fault"]["package_missing"].is_string();
     // ---- reference model state
     let mut model_sys = system_state();
     let bk = |n: &str| format!("{}/ProxyAgent/Backup/{}", sdir, n);
